@@ -458,6 +458,10 @@ impl<'tcx> Cx<'tcx> {
                     }
                     GlobalAlloc::Memory(mem) => {
                         v.push(("mem", self.alloc_bytes(mem.inner())));
+                        if let ty::Ref(_, inner, _) = ty.kind() {
+                            let d = self.decode_mem(*inner, mem.inner(), off.bytes(), env, 0);
+                            v.push(("val", obj! {"k": J::s("ref"), "ty": J::i(tyi as i64), "to": d}));
+                        }
                     }
                     GlobalAlloc::Function { instance } => {
                         v.push(("fnptr_to", J::s(inst_key(tcx, &instance))));
@@ -485,11 +489,104 @@ impl<'tcx> Cx<'tcx> {
                 v.push(("indirect_offset", J::i(offset.bytes() as i64)));
                 if let GlobalAlloc::Memory(mem) = tcx.global_alloc(alloc_id) {
                     v.push(("mem", self.alloc_bytes(mem.inner())));
+                    let d = self.decode_mem(ty, mem.inner(), offset.bytes(), env, 0);
+                    v.push(("val", d));
                 }
             }
             Err(_) => v.push(("eval_err", J::Bool(true))),
         }
         J::Obj(v)
+    }
+
+    /// Decode a constant allocation by type (scalars, structs, tuples, small arrays, thin references).
+    fn decode_mem(&mut self, ty: Ty<'tcx>, a: &rustc_middle::mir::interpret::Allocation, off: u64, env: TypingEnv<'tcx>, depth: u32) -> J {
+        let tcx = self.tcx;
+        if depth > 6 {
+            return J::Null;
+        }
+        let layout = match tcx.layout_of(env.as_query_input(ty)) {
+            Ok(l) => l,
+            Err(_) => return J::Null,
+        };
+        let size = layout.size.bytes();
+        if off + size > a.len() as u64 {
+            return J::Null;
+        }
+        let tyi = self.ty(ty);
+        let read = |lo: u64, n: u64| -> Option<u128> {
+            let r = (lo as usize)..((lo + n) as usize);
+            // refuse to read bytes that carry provenance
+            for (poff, _) in a.provenance().ptrs().iter() {
+                let p = poff.bytes();
+                if p < lo + n && p + 8 > lo {
+                    return None;
+                }
+            }
+            let bytes = a.inspect_with_uninit_and_ptr_outside_interpreter(r);
+            let mut v: u128 = 0;
+            for (i, b) in bytes.iter().enumerate() {
+                v |= (*b as u128) << (8 * i);
+            }
+            Some(v)
+        };
+        match ty.kind() {
+            ty::Bool | ty::Int(_) | ty::Uint(_) | ty::Float(_) | ty::Char => match read(off, size) {
+                Some(v) => obj! {"k": J::s("scalar"), "ty": J::i(tyi as i64), "bits": J::s(format!("{:#x}", v))},
+                None => J::Null,
+            },
+            ty::Ref(_, inner, _) | ty::RawPtr(inner, _) => {
+                if size != 8 {
+                    return J::Null;
+                }
+                let mut out = J::Null;
+                for (poff, prov) in a.provenance().ptrs().iter() {
+                    if poff.bytes() == off {
+                        let r = (off as usize)..((off + 8) as usize);
+                        let bytes = a.inspect_with_uninit_and_ptr_outside_interpreter(r);
+                        let mut v: u64 = 0;
+                        for (i, b) in bytes.iter().enumerate() {
+                            v |= (*b as u64) << (8 * i);
+                        }
+                        if let GlobalAlloc::Memory(m2) = tcx.global_alloc(prov.alloc_id()) {
+                            let inner_v = self.decode_mem(*inner, m2.inner(), v, env, depth + 1);
+                            out = obj! {"k": J::s("ref"), "ty": J::i(tyi as i64), "to": inner_v};
+                        }
+                    }
+                }
+                out
+            }
+            ty::Adt(def, args) if def.is_struct() => {
+                let mut fs = Vec::new();
+                for (i, f) in def.non_enum_variant().fields.iter().enumerate() {
+                    let fty = f.ty(tcx, args);
+                    let fty = tcx.try_normalize_erasing_regions(env, ty::Unnormalized::new_wip(fty)).unwrap_or(fty);
+                    let fo = layout.fields.offset(i).bytes();
+                    fs.push(self.decode_mem(fty, a, off + fo, env, depth + 1));
+                }
+                obj! {"k": J::s("struct"), "ty": J::i(tyi as i64), "fields": J::Arr(fs)}
+            }
+            ty::Tuple(tys) => {
+                let mut fs = Vec::new();
+                for (i, fty) in tys.iter().enumerate() {
+                    let fo = layout.fields.offset(i).bytes();
+                    fs.push(self.decode_mem(fty, a, off + fo, env, depth + 1));
+                }
+                obj! {"k": J::s("struct"), "ty": J::i(tyi as i64), "fields": J::Arr(fs)}
+            }
+            ty::Array(elem, n) => {
+                let n = n.try_to_target_usize(tcx).unwrap_or(0);
+                if n > 64 {
+                    return J::Null;
+                }
+                let mut fs = Vec::new();
+                for i in 0..n {
+                    let fo = layout.fields.offset(i as usize).bytes();
+                    fs.push(self.decode_mem(*elem, a, off + fo, env, depth + 1));
+                }
+                obj! {"k": J::s("array"), "ty": J::i(tyi as i64), "elems": J::Arr(fs)}
+            }
+            _ => J::Null,
+        }
     }
 
     fn alloc_bytes(&mut self, a: &rustc_middle::mir::interpret::Allocation) -> J {
